@@ -161,6 +161,12 @@ class NgramFilter(Filter):
             chars = t.chars
             if chars:
                 startchar = t.startchar
+                if t.endchar - startchar != len(text):
+                    # An earlier filter changed the length of the text (e.g.
+                    # lower-casing U+0130, folding "ß" to "ss", stemming), so
+                    # indexes into the text are not indexes into the source
+                    # any more: leave each gram the offsets of the whole word
+                    chars = False
             # Token positions don't mean much for N-grams,
             # so we'll leave the token's original position
             # untouched.
